@@ -208,6 +208,19 @@ func run(c Case) vt.Verdict {
 	if len(ps) > 0 {
 		return vt.Bad("%d problem(s) after reopen, first: %s (spec %+v, sb %d)", len(ps), ps[0], c.D, c.SB)
 	}
+	// Independent decoder: type, shape, layout and the raw bytes of every layout (chunks re-assembled by a decoder
+	// that shares no code with the library) - covers the types that have no typed read.
+	if data, err := os.ReadFile(file); err == nil {
+		res := hist.CompareIndep(ex.M, data)
+		switch {
+		case res.DecodeErr != "":
+			return vt.Bad("independent decoder cannot decode the written file: %s (spec %+v, sb %d)", res.DecodeErr, c.D, c.SB)
+		case len(res.Extents) > 0:
+			return vt.Bad("structure placement: %s", res.Extents[0])
+		case len(res.Problems) > 0:
+			return vt.Bad("independent decoder disagrees with what was written: %s (spec %+v, sb %d)", res.Problems[0], c.D, c.SB)
+		}
+	}
 	// Byte-exactness for every type (incl. those without a typed read): contiguous data is read straight from the
 	// file at the address the layout message reports.
 	if c.D.Chunk == nil {
